@@ -38,6 +38,7 @@ pub enum Trap {
     Oob,
     Host,
     Depth,
+    NoSuchHost,
 }
 
 #[derive(Clone, Debug, PartialEq, Eq)]
@@ -278,7 +279,9 @@ impl<'a> Instance<'a> {
                 self.host.trace.push(Ev::Sink(*v));
                 Ok(vec![])
             }
-            _ => Err(Stop::Harness(format!("unknown host import {name} {:?}", args))),
+            // an import the simulated host does not provide (generated programs never call one; an
+            // instrumented module that does has been sent to the wrong function)
+            _ => Err(Stop::Trap(Trap::NoSuchHost)),
         }
     }
 
